@@ -370,6 +370,11 @@ def caught_up_shape(cx):
             return l[0] == "is" and l[2] is b and l[1][0] == "call" and l[1][1].endswith("is_snapshot_caught_up")
         ok1, n1 = g.after_edge_must_pass(lambda lits: any(cu(l, True) for l in lits), lambda b: b in bp)
         cx.check(ok1 and n1 >= 1, cx.site_key(c, "leave-snapshot"), "a caught-up follower leaves the Snapshot state (become_probe)", c)
+        # and only a caught-up one: an acknowledgement below the pending snapshot index must not end the Snapshot state
+        for bpc in [x for x in cx.prog.call_sites_of("Progress::become_probe") if x.fn is c.fn]:
+            gl = cx.guard_lits(bpc)
+            if any(l[0] == "in" and is_f(l[1], "Progress.state") and l[2] == frozenset(["Snapshot"]) for l in gl):
+                require(cx, bpc, cx.site_key(bpc, "leave-snapshot:only"), "in the Snapshot state an acknowledgement ends it only if is_snapshot_caught_up()", lambda l: cu(l, True), kill=False)
         n += 1
     cx.check(n >= 1, "floor", "is_snapshot_caught_up is consulted by the acknowledgement handler")
 
